@@ -39,17 +39,18 @@ guarded Topology.m by Topology.Mutex except NewTopology
 define TopoOK(t) = t.m != nil && (forall r string :: has(t.m, r) ==> t.m[r] != nil)
 
 func NewPeerList
-  ensures result != nil && fresh(result)
+  props C18
+  ensures result != nil && fresh(result) && len(result.L) == 0
 
 func Topology.Update
   props C18
-  requires p != nil && TopoOK(t)
+  requires p != nil && TopoOK(t) && (forall r string :: has(t.m, r) ==> PeersOK(t.m[r]))
   modifies everything
 func Topology.Delete
   props C18
   requires p != nil
   // memberlist only reports a leave for a peer it reported before: its role is known
-  requires has(t.m, p.Meta.Role) && t.m[p.Meta.Role] != nil
+  requires has(t.m, p.Meta.Role) && PeersOK(t.m[p.Meta.Role])
   modifies everything
 func Topology.Get
   props C18
@@ -72,10 +73,23 @@ func Topology.Each
   loop 1 invariant n == 1 ==> (forall i int :: 0 <= i && i < len(p.L) ==> p.L[i] != nil)
   loop 1 invariant C18/selected-so-far: n == 1 && old(l != nil && namesBoth(l)) ==> allSel(p)
 
+// the two operations that change a list of the topology keep it free of nil peers (the data
+// invariant PeersOK that routing relies on)
 func PeerList.Update
-  modifies everything
+  props C18
+  requires PeersOK(l) && m != nil
+  modifies l.L, l.L[*]
+  ensures C18/update-keeps-the-list-free-of-nil: PeersOK(l)
+  loop 1 modifies nothing
+  loop 1 invariant PeersOK(l) && l.L == old(l.L) && -1 <= rangeindex && rangeindex < len(l.L)
 func PeerList.Delete
-  modifies everything
+  props C18
+  requires PeersOK(l) && m != nil
+  modifies l.L, l.L[*]
+  ensures C18/delete-keeps-the-list-free-of-nil: forall i int :: 0 <= i && i < len(l.L) ==> l.L[i] != nil
+  ensures len(l.L) == old(len(l.L)) || len(l.L) == old(len(l.L)) - 1
+  loop 1 modifies nothing
+  loop 1 invariant PeersOK(l) && l.L == old(l.L) && -1 <= rangeindex && rangeindex < len(l.L)
 // filtering builds a NEW list: the receiver (often a list owned by the topology) is not touched
 func PeerList.Filter
   props C18
@@ -150,6 +164,9 @@ func BatchProcessor.wasProcessed
   props C18
   requires d.a != nil && b != nil && !isnil(d.log)
   modifies everything, encodeCalls, lastEncoded
+  // the record of a processed batch is stored WITHOUT an expiry (0: the agent cache keeps it for
+  // good): with one, a redelivery after that time would be processed a second time
+  at Cache.Set assert C18/record-of-a-processed-batch-never-expires: arg3 == 0
   ensures C18/duplicate-key-from-the-snapshots-only: encodeCalls == old(encodeCalls) || (encodeCalls == old(encodeCalls) + 1 && istype(lastEncoded, []*protocol.SignedSnapshot) && arrayof(dyn(lastEncoded, []*protocol.SignedSnapshot)) == old(arrayof(b.Snapshots)) && len(dyn(lastEncoded, []*protocol.SignedSnapshot)) == old(len(b.Snapshots)))
 
 // "never self-addressed": no node the message is routed to carries the agent's own name, or
@@ -184,4 +201,20 @@ func Agent.Send
   // every hop lowers the time-to-live
   ensures C18/hop-decrements: old(msg.TTL) > 0 ==> msg.TTL == old(msg.TTL) - 1
   loop 1 modifies sent
+// ---- C19: the task manager starts every task it takes off the queue ---------------------------
+// A verification task that is dequeued and then dropped never reports: no alert, no counter, and
+// the processor's duplicate check makes the loss permanent. dispatchTasks may stop early (the
+// per-interval limit), but only BEFORE it takes the next task.
+immutable SimpleTasksManager.taskCh, SimpleTasksManager.maxTasks by NewSimpleTasksManager, NewSimpleTasksManagerWithLogger
+// ASSUMED (definition of the ghost): tasksLaunched counts the runs of the goroutine body
+func SimpleTasksManager.dispatchTasks.$1
+  modifies everything, tasksLaunched
+  assumes tasksLaunched == old(tasksLaunched) + 1
+func SimpleTasksManager.dispatchTasks
+  props C19
+  requires t != nil
+  modifies everything, tasksLaunched, recvs
+  ensures C19/every-dequeued-task-is-started: tasksLaunched - old(tasksLaunched) == recvs[t.taskCh] - old(recvs[t.taskCh])
+  loop 1 modifies everything, tasksLaunched, recvs
+  loop 1 invariant C19/every-dequeued-task-is-started: tasksLaunched - old(tasksLaunched) == recvs[t.taskCh] - old(recvs[t.taskCh])
 @*/
